@@ -1262,6 +1262,16 @@ class Executor:
             c = Cond("opq", f"cmp{sym_op}({ka},{kb})")
             return Num(None, self.bshape(a.shape, b.shape, node), "bool", cond=c)
         if isinstance(a, (TupleV, ListV)) and isinstance(b, (TupleV, ListV)) and sym_op in ("==", "!="):
+            conc = not getattr(a, "opaque", False) and not getattr(b, "opaque", False)
+            if conc and type(a) is type(b) and all(isinstance(x, Num) and x.cond is None and x.shape == () for x in list(a.items) + list(b.items)):
+                # element-wise: sequences of scalars are equal iff they have the same length and equal elements
+                if len(a.items) != len(b.items):
+                    c = Cond.const(False)
+                else:
+                    c = Cond.const(True)
+                    for x, y in zip(a.items, b.items):
+                        c = c & Cond.cmp("==", x.nf, y.nf)
+                return Num(None, (), "bool", cond=c if sym_op == "==" else c.neg())
             c = Cond("opq", f"seqeq({valkey(a)},{valkey(b)})")
             return Num(None, (), "bool", cond=c if sym_op == "==" else c.neg())
         c = Cond("opq", f"cmp{sym_op}({valkey(a)},{valkey(b)})")
